@@ -390,7 +390,7 @@ def closed_receivers_findable(rec, F):
         rec.inst(R, "send_waiters search @%s" % loc_of(t["sp"]).rsplit(":", 1)[1], ok=ok, loc=loc_of(t["sp"]), note="not-closed guard: %s, falls back to receivers: %s" % (not_closed, fallback))
         if not ok:
             rec.finding(R, "F4.closed-wake/send-only", "runnable_waiter can answer from send_waiters alone while the queue may be closed: a receiver blocked on a closed (empty) channel is never resumed", loc=loc_of(t["sp"]), fn=fn.path)
-    rec.floor(R, "send_waiters searches", n, 3)
+    rec.floor(R, "send_waiters searches", n, 1)
 
 
 def launch_transfers_callee_slot(rec, F):
